@@ -78,7 +78,7 @@ class Ctx:
         cfg_path = os.path.join(run_dir, cfg)
         if constants:
             txt = open(cfg_path).read()
-            txt += "\nCONSTANTS\n" + "".join("  %s = %s\n" % kv for kv in constants.items())
+            txt += "\nCONSTANTS\n" + "".join(("  %s\n" % k) if v is None else ("  %s = %s\n" % (k, v)) for k, v in constants.items())
             cfg_path = os.path.join(run_dir, "gen_" + cfg)
             open(cfg_path, "w").write(txt)
         if workers is None:
